@@ -203,7 +203,14 @@ def apiOp (op : String) (args : List String) : Option String :=
         | _ => none
     let outs ← go ops {} 0 []
     pure (" | ".intercalate outs)
-  | "FloatPath", [d] => do let d ← hexToBytes d; pure (FP.parse d).path.name
+  | "FloatPath", [d] => do
+    let d ← hexToBytes d
+    let r := FP.parse d
+    -- for the slow path also: is the literal inside the scope of `C04.parse_correct` (at most 800 bytes, exact run)?
+    if r.path == .slow || r.path == .slowRange then
+      let ex := ((FP.Decimal.set (d.extract 0 r.n)).map FP.Decimal.exactRun).getD false
+      pure (r.path.name ++ (if ex && r.n ≤ 800 then "/exact-run" else if ex then "/exact-run-over-800B" else "/truncated-run"))
+    else pure r.path.name
   | "getu4", [d] => do
     let d ← hexToBytes d
     pure (match getu4 d 0 with | some v => toString v | none => "-1")
